@@ -45,3 +45,48 @@ pub proof fn lemma_map_sum_zero<K, V>(m: Map<K, V>, f: spec_fn(V) -> nat)
 {
     assert forall|k: K| m.contains_key(k) implies f(#[trigger] m[k]) == 0 by { lemma_map_sum_remove(m, f, k); }
 }
+pub proof fn lemma_map_sum_all_zero<K, V>(m: Map<K, V>, f: spec_fn(V) -> nat)
+    requires forall|k: K| m.contains_key(k) ==> f(#[trigger] m[k]) == 0
+    ensures map_sum(m, f) == 0
+    decreases m.dom().len()
+{
+    if m.dom().len() > 0 {
+        let c = m.dom().choose();
+        assert(m.dom().contains(c)) by { vstd::set_lib::lemma_set_empty_equivalency_len(m.dom()); }
+        assert(m.remove(c).dom() =~= m.dom().remove(c));
+        assert forall|k: K| m.remove(c).contains_key(k) implies f(#[trigger] m.remove(c)[k]) == 0 by { assert(m.contains_key(k)); assert(m.remove(c)[k] == m[k]); }
+        lemma_map_sum_all_zero(m.remove(c), f);
+    }
+}
+pub proof fn lemma_map_sum_le<K, V>(a: Map<K, V>, b: Map<K, V>, f: spec_fn(V) -> nat)
+    requires forall|k: K| a.contains_key(k) <==> b.contains_key(k), forall|k: K| a.contains_key(k) ==> f(#[trigger] b[k]) <= f(a[k])
+    ensures map_sum(b, f) <= map_sum(a, f)
+    decreases a.dom().len()
+{
+    if a.dom().len() == 0 {
+        assert(a.dom() =~= Set::<K>::empty());
+        assert(b.dom() =~= Set::<K>::empty());
+    } else {
+        let c = a.dom().choose();
+        assert(a.dom().contains(c)) by { vstd::set_lib::lemma_set_empty_equivalency_len(a.dom()); }
+        lemma_map_sum_remove(a, f, c);
+        lemma_map_sum_remove(b, f, c);
+        assert(a.remove(c).dom() =~= a.dom().remove(c));
+        assert forall|k: K| a.remove(c).contains_key(k) implies f(#[trigger] b.remove(c)[k]) <= f(a.remove(c)[k]) by { assert(a.contains_key(k)); assert(b.remove(c)[k] == b[k]); assert(a.remove(c)[k] == a[k]); }
+        lemma_map_sum_le(a.remove(c), b.remove(c), f);
+    }
+}
+// filtering out at least one element makes a sequence strictly shorter
+pub proof fn lemma_filter_strict<T>(s: Seq<T>, pred: spec_fn(T) -> bool, i: int)
+    requires 0 <= i < s.len(), !pred(s[i])
+    ensures s.filter(pred).len() < s.len()
+    decreases s.len()
+{
+    reveal(Seq::filter);
+    s.drop_last().filter_lemma(pred);
+    if i == s.len() - 1 {
+    } else {
+        assert(s.drop_last()[i] == s[i]);
+        lemma_filter_strict(s.drop_last(), pred, i);
+    }
+}
